@@ -144,7 +144,11 @@ func run(s Script, v *vt.V) {
 		opts.LocationsForDescriptor = func(bool, ociregistry.Descriptor) ([]string, error) { return nil, nil }
 	case "one":
 		opts.LocationsForDescriptor = func(isManifest bool, d ociregistry.Descriptor) ([]string, error) {
-			return []string{"https://cdn.test/" + string(d.Digest)}, nil
+			kind := "blobs"
+			if isManifest {
+				kind = "manifests"
+			}
+			return []string{"https://cdn.test/" + kind + "/" + string(d.Digest)}, nil
 		}
 	case "error":
 		opts.LocationsForDescriptor = func(bool, ociregistry.Descriptor) ([]string, error) { return nil, fmt.Errorf("no locations today") }
@@ -292,7 +296,7 @@ func run(s Script, v *vt.V) {
 		if status == 206 {
 			cr := hdr.Get("Content-Range")
 			var a, b, n int
-			if _, err := fmt.Sscanf(cr, "bytes %d-%d/%d", &a, &b, &n); err != nil || b-a+1 != len(respBody) || n != len(blobData) && n != len(cfgData) {
+			if _, err := fmt.Sscanf(cr, "bytes %d-%d/%d", &a, &b, &n); err != nil || a < 0 || a > b || b >= n || b-a+1 != len(respBody) || n != len(blobData) && n != len(cfgData) {
 				v.Failf("content-range", "%s: 206 with Content-Range %q and %d body bytes", desc, cr, len(respBody))
 				return
 			}
@@ -323,6 +327,16 @@ func run(s Script, v *vt.V) {
 			return
 		}
 		if !need("Location") || !validDigestHeader() {
+			return
+		}
+		// the Location names what was just stored: a manifest URL for a manifest, a blob URL for a
+		// blob (also when the locations come from the LocationsForDescriptor option)
+		kind := "/blobs/"
+		if last == "PushManifest" {
+			kind = "/manifests/"
+		}
+		if loc := hdr.Get("Location"); !strings.Contains(loc, kind+hdr.Get("Docker-Content-Digest")) {
+			v.Failf("wrong-location", "%s: %s answered Location %q, which is not a %s URL of %s", desc, last, loc, strings.Trim(kind, "/"), hdr.Get("Docker-Content-Digest"))
 			return
 		}
 	case "PushBlobChunked":
